@@ -425,3 +425,23 @@ def boundary_string_cases():
         for n in lens:
             out.append((T("STRINGN", cs=cs), ("b" * (n - 1) + {1: "z", 2: "\u0101", 4: "\U0001F600"}[cs]) if n else ""))
     return out
+
+
+def boundary_array_cases():
+    """(type, value) pairs at the boundaries of every array length prefix, and long fixed / unbounded arrays (deterministic)"""
+    out = []
+    lims = {"USINT": 255, "SINT": 127, "UINT": 65535, "INT": 32767, "UDINT": 70000, "ULINT": 70000}
+    for lt, hi in lims.items():
+        for n in sorted({0, 1, 127, 128, 255, 256, 32767, 32768, 65535, 65536, 70000}):
+            if n > hi:
+                continue
+            for el, val in (("USINT", lambda i: (i * 7 + 3) & 0xFF), ("INT", lambda i: ((i * 257) & 0xFFFF) - 32768)):
+                if n > 300 and el == "INT" and lt not in ("UINT", "INT"):
+                    continue
+                out.append((T("array", len={"lt": lt}, el=T(el), via="factory"), [val(i) for i in range(n)]))
+    for n in (255, 256, 257, 65535, 65536):
+        out.append((T("array", len=n, el=T("USINT"), via="factory"), [(i * 5 + 1) & 0xFF for i in range(n)]))
+        out.append((T("array", len=None, el=T("UINT"), via="factory"), [(i * 13) & 0xFFFF for i in range(n)]))
+    out.append((T("array", len={"lt": "USINT"}, el=T("BYTE"), via="factory"), [bool((i // 3) & 1) for i in range(255 * 8)]))
+    return out
+
